@@ -1,27 +1,568 @@
 (* C01 — Block state transition equals the consensus spec for every valid block.
    The executable Spec (Beacon/Spec/*.v, pyspec transliteration, phase0..deneb) is run, extracted to OCaml, against
    common.StateTransition on every block of every generated chain: same verdict and byte-identical post-state.
-   Theorems here: structure of state_transition (what acceptance entails) — further refinement theorems
-   (zrnt's algorithms = Spec) are added from Beacon/Refine as they are proved. *)
-From Coq Require Import NArith List.
-From V Require Import Ssz.SszCore Beacon.Config Beacon.Schemas Beacon.State Beacon.Spec.Helpers Beacon.Spec.Block
-  Beacon.Spec.Transition Beacon.Proofs.TransitionRules.
+   Theorems here: (a) what acceptance by state_transition entails; (b) for every place where zrnt's block processing is
+   NOT the pyspec text, its implementation model (Beacon/Impl/BlockOps.v, tied to the Go code by harness/cmd/c01impl) returns
+   exactly `match Spec .. with Some s => Ok s | None => Err end` - same verdict, same post-state, no panic - under the stated
+   hypotheses: epc_ok (zrnt's EpochsContext agrees with the state: property C08), cfg_sane (configuration sizes),
+   st_bounds (the `Bounds`: no uint64 wrap).  One line per theorem: design/C01-C03-refine.md.
+   PARTIAL: the whole-block composition `Impl.process_block = Spec.process_block` is not assembled (it needs C08's invariant
+   between operations); operations that are line-by-line transliterations (randao, eth1 vote, proposer slashing, BLS change,
+   execution payload, phase0 attestation) have no separate model and are covered by the chain-level correspondence. *)
+
+From Coq Require Import String.
+From Coq Require Import NArith ZArith List Bool.
+From RecordUpdate Require Import RecordSet.
+From V Require Import Base.U64 Base.Outcome Ssz.SszCore Beacon.Config Beacon.Schemas Beacon.State
+  Beacon.Spec.Helpers Beacon.Spec.Epoch Beacon.Spec.Block Beacon.Spec.Transition Beacon.Impl.BlockOps
+  Beacon.Proofs.TransitionRules
+  Beacon.Refine.BlockLemmas Beacon.Refine.RejectRules Beacon.Refine.BlockEpc Beacon.Refine.BlockFixtures
+  Beacon.Refine.BlockProposer Beacon.Refine.BlockSyncRefine Beacon.Refine.BlockSyncWitness Beacon.Refine.BlockExitRefine
+  Beacon.Refine.BlockSlashRefine Beacon.Refine.BlockAttRefine Beacon.Refine.BlockDepositRefine
+  Beacon.Refine.BlockWithdrawRefine Beacon.Refine.BlockHeaderRefine Beacon.Refine.BlockAttSlashRefine
+  Beacon.Refine.BlockNonvacuous Beacon.Refine.RejectNonvacuous.
+Import ListNotations RecordSetNotations.
+Local Open Scope string_scope.
+Local Open Scope list_scope.
 Local Open Scope N_scope.
 
-(* acceptance = slots processed to the block's slot, block of the state's fork, proposer signature valid,
-   process_block succeeds, declared state root equals the hash-tree-root of the result *)
-Theorem C01_transition_decomposes : forall E f st bf sb validate f' st',
-  state_transition E f st bf sb validate = Some (f', st') ->
-  exists st1, process_slots E f st (vuint (vfield (vfield sb 0) 0)) = Some (f', st1)
-           /\ fork_idx f' = fork_idx bf
-           /\ (validate = true -> verify_block_signature E f' st1 sb = true)
-           /\ process_block E f' st1 (vfield sb 0) = Some st'
-           /\ (validate = true -> bytes_eqb (vbytes (vfield (vfield sb 0) 3)) (state_root E f' st') = true).
-Proof. exact state_transition_inv. Qed.
+
+(* ===================== state_transition: what acceptance entails (common.StateTransition) ===================== *)
+
+(* acceptance <=> slots processed to the block's slot, block of the state's fork, proposer signature valid,
+   process_block succeeds, declared state root = root of the result (iff; subsumes the former one-directional
+   TransitionRules.state_transition_inv) *)
+Theorem C01_transition_decomposes :
+  forall (E : Env) (f : fork) (st : BeaconState) (bf : fork) (sb : value) (validate : bool) 
+      (f' : fork) (st' : BeaconState),
+    let blk := vfield sb 0 in
+    state_transition E f st bf sb validate = Some (f', st') <->
+    (exists st1 : BeaconState,
+       process_slots E f st (vuint (vfield blk 0)) = Some (f', st1) /\
+       fork_idx f' = fork_idx bf /\
+       (validate = true -> verify_block_signature E f' st1 sb = true) /\
+       process_block E f' st1 blk = Some st' /\ (validate = true -> vbytes (vfield blk 3) = state_root E f' st')).
+Proof. exact state_transition_iff. Qed.
 Print Assumptions C01_transition_decomposes.
 
-Theorem C01_state_root_declared : forall E f st bf sb f' st',
-  state_transition E f st bf sb true = Some (f', st') ->
-  bytes_eqb (vbytes (vfield (vfield sb 0) 3)) (state_root E f' st') = true.
+(* the declared state root is the hash-tree-root of the post-state *)
+Theorem C01_state_root_declared :
+  forall (E : Env) (f : fork) (st : BeaconState) (bf : fork) (sb : value) (f' : fork) (st' : BeaconState),
+    state_transition E f st bf sb true = Some (f', st') ->
+    bytes_eqb (vbytes (vfield (vfield sb 0) 3)) (state_root E f' st') = true.
 Proof. exact state_root_declared. Qed.
 Print Assumptions C01_state_root_declared.
+
+(* ===================== context facts used by every operation ===================== *)
+
+(* the honest EpochsContext view of ANY state satisfies epc_ok (the hypothesis is satisfiable everywhere) *)
+Theorem C01_epc_ok_spec_epc :
+  forall (E : Env) (st : BeaconState),
+    all_some (map (fun pk : bytes => find_pubkey pk (validators st) 0) (sc_pubkeys (current_sync_committee st))) <>
+    None -> epc_ok E st (spec_epc E st).
+Proof. exact epc_ok_spec_epc. Qed.
+Print Assumptions C01_epc_ok_spec_epc.
+
+(* the spec's proposer is a registry index (epc.GetBeaconProposer result can be used with IncreaseBalance) *)
+Theorem C01_proposer_in_range :
+  forall (E : Env) (st : BeaconState) (p : N),
+    get_beacon_proposer_index E st = Some p -> p < N.of_nat (Datatypes.length (validators st)).
+Proof. exact proposer_in_range. Qed.
+Print Assumptions C01_proposer_in_range.
+
+(* the proposer depends only on slot, randao mixes and per validator (active now?, effective balance): the value
+   cached at epoch start stays right while operations mutate the state *)
+Theorem C01_proposer_frame :
+  forall (E : Env) (st1 st2 : BeaconState),
+    slot st1 = slot st2 ->
+    randao_mixes st1 = randao_mixes st2 ->
+    map (pview (get_current_epoch E st1)) (validators st1) =
+    map (pview (get_current_epoch E st1)) (validators st2) ->
+    get_beacon_proposer_index E st1 = get_beacon_proposer_index E st2.
+Proof. exact proposer_frame. Qed.
+Print Assumptions C01_proposer_frame.
+
+(* ===================== block header (common.ProcessHeader) ===================== *)
+
+(* different check order, expected proposer from the EpochsContext: same verdict and post-state for every block
+   value *)
+Theorem C01_process_header_refines :
+  forall (E : Env) (f : fork) (st : BeaconState) (epc : BlockEpc) (blk : value),
+    be_proposer epc = get_beacon_proposer_index E st ->
+    process_header_impl E f epc st blk =
+    match process_block_header E f st blk with
+    | Some s => Ok s
+    | None => Err
+    end.
+Proof. exact process_header_refines. Qed.
+Print Assumptions C01_process_header_refines.
+
+(* ===================== voluntary exits (phase0.InitiateValidatorExit, phase0/deneb ProcessVoluntaryExit) ===================== *)
+
+(* zrnt's ONE-pass scan (running maximum, counter restarted at 1) = the spec's (max exit epoch, number of
+   validators exiting at it) *)
+Theorem C01_exit_scan_spec :
+  forall (l : list Validator) (start : N),
+    start <> FAR_FUTURE_EPOCH ->
+    N.of_nat (Datatypes.length l) < two64 ->
+    fold_left exit_scan_step l (start, 0) = (maxl (exits_of l) start, count_at (maxl (exits_of l) start) l).
+Proof. exact exit_scan_spec. Qed.
+Print Assumptions C01_exit_scan_spec.
+
+(* InitiateValidatorExit (epoch and active count from the EpochsContext, uint64 arithmetic) =
+   initiate_validator_exit *)
+Theorem C01_initiate_validator_exit_refines :
+  forall (E : Env) (st : BeaconState) (epc : BlockEpc) (index : N),
+    cfg_sane E ->
+    epc_ok E st epc ->
+    st_bounds E st ->
+    initiate_validator_exit_impl E epc st index =
+    match initiate_validator_exit E st index with
+    | Some s => Ok s
+    | None => Err
+    end.
+Proof. exact initiate_validator_exit_refines. Qed.
+Print Assumptions C01_initiate_validator_exit_refines.
+
+(* ProcessVoluntaryExit (pubkey from the cache; activation + SHARD_COMMITTEE_PERIOD in uint64 cannot wrap because
+   IsActive precedes) = process_voluntary_exit *)
+Theorem C01_process_voluntary_exit_refines :
+  forall (E : Env) (f : fork) (st : BeaconState) (epc : BlockEpc) (sve : value),
+    cfg_sane E ->
+    epc_ok E st epc ->
+    st_bounds E st ->
+    SHARD_COMMITTEE_PERIOD (cfg E) <= 2 ^ 40 ->
+    process_voluntary_exit_impl E f epc st sve =
+    match process_voluntary_exit E f st sve with
+    | Some s => Ok s
+    | None => Err
+    end.
+Proof. exact process_voluntary_exit_refines. Qed.
+Print Assumptions C01_process_voluntary_exit_refines.
+
+(* ===================== slashings (phase0.SlashValidator, phase0.ProcessAttesterSlashing) ===================== *)
+
+(* the proposer the spec recomputes AFTER marking the validator exited/slashed is the one cached before *)
+Theorem C01_slash_proposer_stable :
+  forall (E : Env) (st : BeaconState) (idx : N) (g : Validator -> Validator) (B S : list N),
+    (forall v : Validator,
+     nthN (validators st) idx = Some v ->
+     pview (get_current_epoch E st) (g v) = pview (get_current_epoch E st) v) ->
+    get_beacon_proposer_index E
+      (st <| validators := updN (validators st) idx g |> <| slashings := S |> <| balances := B |>) =
+    get_beacon_proposer_index E st.
+Proof. exact slash_proposer_stable. Qed.
+Print Assumptions C01_slash_proposer_stable.
+
+(* SlashValidator = slash_validator *)
+Theorem C01_slash_validator_refines :
+  forall (E : Env) (f : fork) (st : BeaconState) (epc : BlockEpc) (idx : N) (wb : option N),
+    cfg_sane E ->
+    epc_ok E st epc ->
+    st_bounds E st ->
+    N.of_nat (Datatypes.length (slashings st)) = EPOCHS_PER_SLASHINGS_VECTOR (cfg E) ->
+    (forall w : N, wb = Some w -> w < N.of_nat (Datatypes.length (validators st))) ->
+    slash_validator_impl E f epc st idx wb =
+    match slash_validator E f st idx wb with
+    | Some s => Ok s
+    | None => Err
+    end.
+Proof. exact slash_validator_refines. Qed.
+Print Assumptions C01_slash_validator_refines.
+
+(* ValidatorSet.ZigZagJoin of two strictly sorted index lists = the spec's sorted intersection *)
+Theorem C01_zigzag_spec :
+  forall a b : list N,
+    strictly_sorted a = true ->
+    strictly_sorted b = true ->
+    zigzag (Datatypes.length a + Datatypes.length b) a b = sort_uniq (filter (fun i : N => memN i b) a).
+Proof. exact zigzag_spec. Qed.
+Print Assumptions C01_zigzag_spec.
+
+(* slashing i leaves every other registry entry untouched: reading slashability from the validators view taken
+   BEFORE the loop is harmless *)
+Theorem C01_slash_validator_others :
+  forall (E : Env) (f : fork) (st : BeaconState) (i : N) (wb : option N) (st' : BeaconState),
+    get_current_epoch E st < FAR_FUTURE_EPOCH ->
+    slash_validator E f st i wb = Some st' ->
+    slot st' = slot st /\ (forall j : N, j <> i -> nthN (validators st') j = nthN (validators st) j).
+Proof. exact slash_validator_others. Qed.
+Print Assumptions C01_slash_validator_others.
+
+(* ProcessAttesterSlashing = process_attester_slashing. PARTIAL: for any state invariant Inv that implies
+   epc_ok/st_bounds/|slashings| and is preserved by slash_validator; that such an Inv holds between the slashings
+   of one operation is C08's epc_inv_step, not proved here *)
+Theorem C01_attester_slashing_refines_partial :
+  forall (E : Env) (f : fork) (epc : BlockEpc) (Inv : BeaconState -> Prop),
+    cfg_sane E ->
+    (forall s : BeaconState, Inv s -> epc_ok E s epc) ->
+    (forall s : BeaconState, Inv s -> st_bounds E s) ->
+    (forall s : BeaconState,
+     Inv s -> N.of_nat (Datatypes.length (slashings s)) = EPOCHS_PER_SLASHINGS_VECTOR (cfg E)) ->
+    (forall (s : BeaconState) (i : N) (s' : BeaconState),
+     Inv s -> slash_validator E f s i None = Some s' -> Inv s') ->
+    forall (st : BeaconState) (asl : value),
+    Inv st ->
+    process_attester_slashing_impl E f epc st asl =
+    match process_attester_slashing E f st asl with
+    | Some s => Ok s
+    | None => Err
+    end.
+Proof. exact attester_slashing_refines_partial. Qed.
+Print Assumptions C01_attester_slashing_refines_partial.
+
+(* ===================== attestations, altair..deneb (altair.ProcessAttestation, deneb.ProcessAttestation): flags and proposer reward ===================== *)
+
+(* process_attestation = the checks, then attestation_tail on the committee members selected by the bits *)
+Theorem C01_process_attestation_altair_nf :
+  forall (E : Env) (f : fork) (st : BeaconState) (att : value),
+    f <> Phase0 ->
+    process_attestation E f st att =
+    (let bits := vbits (vfield att 0) in
+     let data := vfield att 1 in
+     let tgt := ad_target data in
+     let ce := get_current_epoch E st in
+     assert (cp_epoch tgt =? get_previous_epoch E st) || (cp_epoch tgt =? ce);;
+     assert (cp_epoch tgt =? compute_epoch_at_slot E (ad_slot data));;
+     assert (ad_slot data + MIN_ATTESTATION_INCLUSION_DELAY (cfg E) <=? slot st);;
+     assert fork_ge f Deneb || (slot st <=? ad_slot data + SLOTS_PER_EPOCH (cfg E));;
+     assert (ad_index data <? get_committee_count_per_slot E st (cp_epoch tgt));;
+     committee <- get_beacon_committee E st (ad_slot data) (ad_index data);;
+     assert (Datatypes.length bits =? Datatypes.length committee)%nat;;
+     flags <- get_attestation_participation_flag_indices E f st data (slot st - ad_slot data);;
+     ia <- get_indexed_attestation E st att;;
+     assert is_valid_indexed_attestation E st ia;;
+     attestation_tail E st (cp_epoch tgt =? ce) (select_bits bits committee) flags).
+Proof. exact process_attestation_altair_nf. Qed.
+Print Assumptions C01_process_attestation_altair_nf.
+
+(* the spec's loop over the three flag indices for one attester = OR-ing the whole flag word at once (zrnt) with
+   the same numerator contribution *)
+Theorem C01_spec_flags_fold :
+  forall (E : Env) (st : BeaconState) (flags : list N) (brpi i : N) (part : list N) (num : N),
+    (forall fl : N, In fl flags -> fl < 3) ->
+    fold_left (spec_flag_step E st flags brpi i) [0; 1; 2] (part, num) =
+    att_step E st (flags_word flags) brpi (part, num) i.
+Proof. exact spec_flags_fold. Qed.
+Print Assumptions C01_spec_flags_fold.
+
+(* walking the SORTED attesting indices (zrnt) = walking the committee order (spec) *)
+Theorem C01_att_fold_sorted :
+  forall (E : Env) (st : BeaconState) (W brpi : N) (l : list N) (pn : list N * N),
+    NoDup l -> fold_left (att_step E st W brpi) (sort_uniq l) pn = fold_left (att_step E st W brpi) l pn.
+Proof. exact att_fold_sorted. Qed.
+Print Assumptions C01_att_fold_sorted.
+
+(* flags + uint64 proposer-reward numerator with effective balances from the EpochsContext = attestation_tail;
+   the committee equality get_beacon_committee = epc committee and NoDup are C07 *)
+Theorem C01_attestation_rewards_refines :
+  forall (E : Env) (st : BeaconState) (epc : BlockEpc) (is_cur : bool) (idxs flags : list N),
+    cfg_sane E ->
+    epc_ok E st epc ->
+    st_bounds E st ->
+    NoDup idxs ->
+    (forall fl : N, In fl flags -> fl < 3) ->
+    (forall i : N,
+     In i idxs ->
+     exists v : Validator,
+       nthN (validators st) i = Some v /\
+       is_active_validator v (get_previous_epoch E st) || is_active_validator v (get_current_epoch E st) = true) ->
+    Datatypes.length (current_epoch_participation st) = Datatypes.length (validators st) ->
+    Datatypes.length (previous_epoch_participation st) = Datatypes.length (validators st) ->
+    N.of_nat (Datatypes.length idxs) * att_unit E (get_base_reward_per_increment E st) < 2 ^ 63 ->
+    attestation_rewards_impl E epc st is_cur (sort_indices idxs) flags =
+    match attestation_tail E st is_cur idxs flags with
+    | Some s => Ok s
+    | None => Err
+    end.
+Proof. exact attestation_rewards_refines. Qed.
+Print Assumptions C01_attestation_rewards_refines.
+
+(* zrnt's GetBlockRootAtSlot/GetBlockRoot have NO range check; the inclusion-window checks before them imply the
+   spec's assertion, so the unchecked lookup is the spec's value *)
+Theorem C01_attestation_roots_in_range :
+  forall (E : Env) (st : BeaconState) (data : AttData),
+    cfg_sane E ->
+    cp_epoch (ad_target data) = compute_epoch_at_slot E (ad_slot data) ->
+    cp_epoch (ad_target data) = get_previous_epoch E st \/ cp_epoch (ad_target data) = get_current_epoch E st ->
+    ad_slot data + MIN_ATTESTATION_INCLUSION_DELAY (cfg E) <= slot st ->
+    get_block_root_at_slot E st (ad_slot data) =
+    nthN (block_roots st) (ad_slot data mod SLOTS_PER_HISTORICAL_ROOT (cfg E)) /\
+    get_block_root E st (cp_epoch (ad_target data)) =
+    nthN (block_roots st)
+      (compute_start_slot_at_epoch E (cp_epoch (ad_target data)) mod SLOTS_PER_HISTORICAL_ROOT (cfg E)).
+Proof. exact attestation_roots_in_range. Qed.
+Print Assumptions C01_attestation_roots_in_range.
+
+(* ===================== deposits (phase0.ProcessDeposit, state.AddValidator, phase0.ProcessDeposits) ===================== *)
+
+(* AddValidator incl. the altair participation/inactivity lists = add_validator_to_registry *)
+Theorem C01_add_validator_refines :
+  forall (E : Env) (f : fork) (st : BeaconState) (pubkey wc : bytes) (amount : N),
+    0 < EFFECTIVE_BALANCE_INCREMENT (cfg E) ->
+    registry_room E f st ->
+    add_validator_impl E f st pubkey wc amount = Ok (add_validator_to_registry E f st pubkey wc amount).
+Proof. exact add_validator_refines. Qed.
+Print Assumptions C01_add_validator_refines.
+
+(* ProcessDeposit (pubkey-cache lookup = first registry index with that pubkey; invalid proof of possession
+   skips) = process_deposit *)
+Theorem C01_process_deposit_refines :
+  forall (E : Env) (f : fork) (st : BeaconState) (epc : BlockEpc) (dep : value),
+    0 < EFFECTIVE_BALANCE_INCREMENT (cfg E) ->
+    registry_room E f st ->
+    (forall pk : bytes, be_pubkey_index epc pk = find_pubkey pk (validators st) 0) ->
+    eth1_deposit_index st + 1 < two64 ->
+    (forall x : N, In x (balances st) -> x < 2 ^ 63) ->
+    vuint (vfield (vfield dep 1) 2) < 2 ^ 63 ->
+    process_deposit_impl E f epc st dep =
+    match process_deposit E f st dep with
+    | Some s => Ok s
+    | None => Err
+    end.
+Proof. exact process_deposit_refines. Qed.
+Print Assumptions C01_process_deposit_refines.
+
+(* the expected number of deposits = min(MAX_DEPOSITS, deposit_count - eth1_deposit_index) when the index does
+   not exceed the count *)
+Theorem C01_expected_deposit_count_ok :
+  forall (E : Env) (st : BeaconState),
+    eth1_deposit_index st <= e_deposit_count (eth1_data st) ->
+    expected_deposit_count_impl E st =
+    N.min (MAX_DEPOSITS (cfg E)) (e_deposit_count (eth1_data st) - eth1_deposit_index st).
+Proof. exact expected_deposit_count_ok. Qed.
+Print Assumptions C01_expected_deposit_count_ok.
+
+(* ===================== withdrawals (capella.GetExpectedWithdrawals, capella.ProcessWithdrawals) ===================== *)
+
+(* the open counter loop (validator read BEFORE the bound test, uint64 indices) = the spec's bounded recursion *)
+Theorem C01_withdrawals_sweep_refines :
+  forall (E : Env) (st : BeaconState) (epoch : N),
+    let count := N.of_nat (Datatypes.length (validators st)) in
+    let bound := N.min count (MAX_VALIDATORS_PER_WITHDRAWALS_SWEEP (cfg E)) in
+    Datatypes.length (balances st) = Datatypes.length (validators st) ->
+    count < 2 ^ 41 ->
+    forall (n : nat) (i widx vidx : N) (acc : list W) (k : nat),
+    i + N.of_nat n = bound ->
+    (n < k)%nat ->
+    vidx < count ->
+    widx + N.of_nat n < two64 ->
+    withdrawals_sweep_impl E k st epoch count widx vidx i acc =
+    Ok (withdrawals_sweep E n st epoch widx vidx acc).
+Proof. exact withdrawals_sweep_refines. Qed.
+Print Assumptions C01_withdrawals_sweep_refines.
+
+(* GetExpectedWithdrawals = get_expected_withdrawals *)
+Theorem C01_get_expected_withdrawals_refines :
+  forall (E : Env) (st : BeaconState),
+    0 < SLOTS_PER_EPOCH (cfg E) ->
+    Datatypes.length (balances st) = Datatypes.length (validators st) ->
+    0 < N.of_nat (Datatypes.length (validators st)) <= 2 ^ 40 ->
+    next_withdrawal_validator_index st < N.of_nat (Datatypes.length (validators st)) ->
+    next_withdrawal_index st < 2 ^ 63 -> get_expected_withdrawals_impl E st = Ok (get_expected_withdrawals E st).
+Proof. exact get_expected_withdrawals_refines. Qed.
+Print Assumptions C01_get_expected_withdrawals_refines.
+
+(* ProcessWithdrawals (compare-and-debit interleaved) = process_withdrawals *)
+Theorem C01_process_withdrawals_refines :
+  forall (E : Env) (f : fork) (st : BeaconState) (payload : value),
+    0 < SLOTS_PER_EPOCH (cfg E) ->
+    0 < MAX_WITHDRAWALS_PER_PAYLOAD (cfg E) ->
+    MAX_VALIDATORS_PER_WITHDRAWALS_SWEEP (cfg E) <= 2 ^ 40 ->
+    Datatypes.length (balances st) = Datatypes.length (validators st) ->
+    0 < N.of_nat (Datatypes.length (validators st)) <= 2 ^ 40 ->
+    next_withdrawal_validator_index st < N.of_nat (Datatypes.length (validators st)) ->
+    next_withdrawal_index st < 2 ^ 63 ->
+    process_withdrawals_impl E f st payload =
+    match process_withdrawals E f st payload with
+    | Some s => Ok s
+    | None => Err
+    end.
+Proof. exact process_withdrawals_refines. Qed.
+Print Assumptions C01_process_withdrawals_refines.
+
+(* ===================== sync aggregate (altair.ProcessSyncAggregate, as repaired by /repo 74b46c6) ===================== *)
+
+(* cached committee indices/pubkeys, cached total stake, uint64 rewards, per-participant proposer reward =
+   process_sync_aggregate, for ALL states *)
+Theorem C01_sync_aggregate_refines :
+  forall (E : Env) (st : BeaconState) (epc : BlockEpc) (sa : value),
+    cfg_sane E ->
+    epc_ok E st epc ->
+    st_bounds E st ->
+    0 < slot st ->
+    N.of_nat (Datatypes.length (vbits (vfield sa 0))) = SYNC_COMMITTEE_SIZE (cfg E) ->
+    N.of_nat (Datatypes.length (sc_pubkeys (current_sync_committee st))) = SYNC_COMMITTEE_SIZE (cfg E) ->
+    process_sync_aggregate_impl E epc st sa =
+    match process_sync_aggregate E st sa with
+    | Some st' => Ok st'
+    | None => Err
+    end.
+Proof. exact sync_aggregate_refines. Qed.
+Print Assumptions C01_sync_aggregate_refines.
+
+(* EXACT characterisation of when the pinned snapshot's batched proposer reward equals the spec's interleaved
+   one: iff no position has the shape sync_bad *)
+Theorem C01_sync_batching_exact :
+  forall (p pr propr : N) (ibs : list (N * bool)) (bals : list N),
+    p < N.of_nat (Datatypes.length bals) ->
+    spec_loop p pr propr ibs bals = go_batched p pr propr ibs bals <-> ~ sync_bad p pr propr ibs bals 0.
+Proof. exact sync_batching_exact. Qed.
+Print Assumptions C01_sync_batching_exact.
+
+(* sync_bad needs a proposer that cannot pay its own penalties *)
+Theorem C01_sync_bad_needs_poor :
+  forall (p pr propr : N) (ibs : list (N * bool)) (G : list N) (P : N),
+    pr * np_count p ibs <= getb G p -> ~ sync_bad p pr propr ibs G P.
+Proof. exact sync_bad_needs_poor. Qed.
+Print Assumptions C01_sync_bad_needs_poor.
+
+(* ===================== PINNED SNAPSHOT (before fix: commits 74b46c6, 9bd2c6a): _refuted witnesses and what did hold ===================== *)
+
+(* altair.ProcessSyncAggregate of the snapshot, loop level: committee [1;0], bits [1;0], proposer 0 with balance
+   0 *)
+Theorem C01_sync_aggregate_batching_refuted :
+  exists (p pr propr : N) (ibs : list (N * bool)) (bals : list N),
+      p < N.of_nat (Datatypes.length bals) /\
+      Forall (fun ib : N * bool => fst ib < N.of_nat (Datatypes.length bals)) ibs /\
+      spec_loop p pr propr ibs bals <> go_batched p pr propr ibs bals.
+Proof. exact sync_aggregate_batching_refuted. Qed.
+Print Assumptions C01_sync_aggregate_batching_refuted.
+
+(* the same on a full altair state satisfying every other hypothesis: spec [0; 32000031622], snapshot [4517;
+   32000031622] (reproduced on the Go code: design/C01-C03-refine.md) *)
+Theorem C01_sync_aggregate_batching_refuted_state :
+  let st := sw_state 0 in
+    cfg_sane blk_env /\
+    epc_ok blk_env st (spec_epc blk_env st) /\
+    st_bounds blk_env st /\
+    0 < slot st /\
+    N.of_nat (Datatypes.length (vbits (vfield sw_agg 0))) = SYNC_COMMITTEE_SIZE (cfg blk_env) /\
+    N.of_nat (Datatypes.length (sc_pubkeys (current_sync_committee st))) = SYNC_COMMITTEE_SIZE (cfg blk_env) /\
+    get_beacon_proposer_index blk_env st = Some 0 /\
+    (sync_pr blk_env st, sync_propr blk_env st) = (31622, 4517) /\
+    option_map balances (process_sync_aggregate blk_env st sw_agg) = Some [0; 32000031622] /\
+    impl_balances (process_sync_aggregate_orig blk_env (spec_epc blk_env st) st sw_agg) =
+    Some [4517; 32000031622].
+Proof. exact sync_aggregate_batching_refuted_state. Qed.
+Print Assumptions C01_sync_aggregate_batching_refuted_state.
+
+(* the snapshot = Spec outside that shape (hypothesis ~ sync_bad) *)
+Theorem C01_sync_aggregate_orig_refines_partial :
+  forall (E : Env) (st : BeaconState) (epc : BlockEpc) (sa : value),
+    cfg_sane E ->
+    epc_ok E st epc ->
+    st_bounds E st ->
+    0 < slot st ->
+    N.of_nat (Datatypes.length (vbits (vfield sa 0))) = SYNC_COMMITTEE_SIZE (cfg E) ->
+    N.of_nat (Datatypes.length (sc_pubkeys (current_sync_committee st))) = SYNC_COMMITTEE_SIZE (cfg E) ->
+    (forall p : N,
+     get_beacon_proposer_index E st = Some p ->
+     ~
+     sync_bad p (sync_pr E st) (sync_propr E st) (combine (be_sync_indices epc) (vbits (vfield sa 0)))
+       (balances st) 0) ->
+    process_sync_aggregate_orig E epc st sa =
+    match process_sync_aggregate E st sa with
+    | Some st' => Ok st'
+    | None => Err
+    end.
+Proof. exact sync_aggregate_orig_refines_partial. Qed.
+Print Assumptions C01_sync_aggregate_orig_refines_partial.
+
+(* ===================== non-vacuity: the hypotheses hold on a non-trivial state and the functions do work there ===================== *)
+
+(* cfg_sane, epc_ok, st_bounds on a two-validator altair state *)
+Example C01_hypotheses_nonvacuous :
+  cfg_sane blk_env /\ epc_ok blk_env nv_state nv_epc /\ st_bounds blk_env nv_state.
+Proof. exact nv_hyps. Qed.
+Print Assumptions C01_hypotheses_nonvacuous.
+
+(* all hypotheses of C01_sync_aggregate_refines on the state that refuted the snapshot; repaired code = spec
+   there *)
+Example C01_sync_aggregate_refines_nonvacuous :
+  let st := sw_state 0 in
+    let epc := spec_epc blk_env st in
+    cfg_sane blk_env /\
+    epc_ok blk_env st epc /\
+    st_bounds blk_env st /\
+    0 < slot st /\
+    N.of_nat (Datatypes.length (vbits (vfield sw_agg 0))) = SYNC_COMMITTEE_SIZE (cfg blk_env) /\
+    N.of_nat (Datatypes.length (sc_pubkeys (current_sync_committee st))) = SYNC_COMMITTEE_SIZE (cfg blk_env) /\
+    impl_balances (process_sync_aggregate_impl blk_env epc st sw_agg) = Some [0; 32000031622] /\
+    option_map balances (process_sync_aggregate blk_env st sw_agg) = Some [0; 32000031622].
+Proof. exact sync_aggregate_refines_nonvacuous. Qed.
+Print Assumptions C01_sync_aggregate_refines_nonvacuous.
+
+(* exit of validator 1 *)
+Example C01_initiate_validator_exit_refines_nonvacuous :
+  cfg_sane blk_env /\
+    epc_ok blk_env nv_state nv_epc /\
+    st_bounds blk_env nv_state /\ changed (initiate_validator_exit_impl blk_env nv_epc nv_state 1) = true.
+Proof. exact initiate_validator_exit_refines_nonvacuous. Qed.
+Print Assumptions C01_initiate_validator_exit_refines_nonvacuous.
+
+(* slashing of validator 1 *)
+Example C01_slash_validator_refines_nonvacuous :
+  cfg_sane blk_env /\
+    epc_ok blk_env nv_state nv_epc /\
+    st_bounds blk_env nv_state /\
+    N.of_nat (Datatypes.length (slashings nv_state)) = EPOCHS_PER_SLASHINGS_VECTOR (cfg blk_env) /\
+    changed (slash_validator_impl blk_env Altair nv_epc nv_state 1 None) = true.
+Proof. exact slash_validator_refines_nonvacuous. Qed.
+Print Assumptions C01_slash_validator_refines_nonvacuous.
+
+(* both validators attest with all three flags *)
+Example C01_attestation_rewards_refines_nonvacuous :
+  let idxs := [1; 0] in
+    let flags := [0; 1; 2] in
+    NoDup idxs /\
+    (forall fl : N, In fl flags -> fl < 3) /\
+    (forall i : N,
+     In i idxs ->
+     exists v : Validator,
+       nthN (validators nv_state) i = Some v /\
+       is_active_validator v (get_previous_epoch blk_env nv_state)
+       || is_active_validator v (get_current_epoch blk_env nv_state) = true) /\
+    Datatypes.length (current_epoch_participation nv_state) = Datatypes.length (validators nv_state) /\
+    Datatypes.length (previous_epoch_participation nv_state) = Datatypes.length (validators nv_state) /\
+    N.of_nat (Datatypes.length idxs) * att_unit blk_env (get_base_reward_per_increment blk_env nv_state) <
+    2 ^ 63 /\
+    match attestation_rewards_impl blk_env nv_epc nv_state true (sort_indices idxs) flags with
+    | Ok s =>
+        current_epoch_participation s = [7; 7] /\
+        nthN (balances s) 0 = Some (32 * GWEI_ETH + 54 * 32 * 252982 * 2 / 448)
+    | _ => False
+    end.
+Proof. exact attestation_rewards_refines_nonvacuous. Qed.
+Print Assumptions C01_attestation_rewards_refines_nonvacuous.
+
+(* one partial and one full withdrawal *)
+Example C01_get_expected_withdrawals_refines_nonvacuous :
+  0 < SLOTS_PER_EPOCH (cfg blk_env) /\
+    Datatypes.length (balances nvw_state) = Datatypes.length (validators nvw_state) /\
+    0 < N.of_nat (Datatypes.length (validators nvw_state)) <= 2 ^ 40 /\
+    next_withdrawal_validator_index nvw_state < N.of_nat (Datatypes.length (validators nvw_state)) /\
+    next_withdrawal_index nvw_state < 2 ^ 63 /\
+    get_expected_withdrawals_impl blk_env nvw_state = Ok [(0, 1, repeat 1 20, GWEI_ETH); (1, 2, repeat 2 20, 5)].
+Proof. exact get_expected_withdrawals_refines_nonvacuous. Qed.
+Print Assumptions C01_get_expected_withdrawals_refines_nonvacuous.
+
+(* deposit of a new validator *)
+Example C01_process_deposit_refines_nonvacuous :
+  0 < EFFECTIVE_BALANCE_INCREMENT (cfg blk_env) /\
+    registry_room blk_env Altair nv_state /\
+    eth1_deposit_index nv_state + 1 < two64 /\
+    (forall x : N, In x (balances nv_state) -> x < 2 ^ 63) /\
+    match
+      process_deposit_impl blk_env Altair nv_epc nv_state
+        (VCont
+           [VSeq (repeat (VBytes z32) 33);
+            VCont [VBytes [9]; VBytes z32; VUint (32 * GWEI_ETH); VBytes (repeat 0 96)]])
+    with
+    | Ok s =>
+        Datatypes.length (validators s) = 3%nat /\
+        Datatypes.length (inactivity_scores s) = 3%nat /\ eth1_deposit_index s = 1
+    | _ => False
+    end.
+Proof. exact process_deposit_refines_nonvacuous. Qed.
+Print Assumptions C01_process_deposit_refines_nonvacuous.
